@@ -5,5 +5,7 @@ CONSTANTS
   VaryBase = FALSE
   MaxTests = 1
   RichCapture = TRUE
+  MaxSteps = 0
+  LifeWrites = {}
 INVARIANT Broken_EveryExtraIsDeviation
 CHECK_DEADLOCK FALSE
